@@ -598,6 +598,19 @@ def check_fset(case, out):
         if len(holders) == 1 and len([x for x in holders[0]["vars"] if x not in marg and x != v]) >= 1:
             marg.append(v)
     if marg:
+        # a factor set is a *set* under value equality: if summing out makes a member equal to another one, the two become
+        # one member (by design of the class) and the represented function changes; such cases are counted, not judged
+        after = []
+        for f in case["sets"][0]:
+            r_ = Ref.from_spec(case, f)
+            mv = [v for v in marg if v in f["vars"]]
+            after.append(r_.eliminate(mv, lambda p, q: p + q, case) if mv else r_)
+        collide = any(set(x.scope) == set(y.scope) and all(abs(x.table[k_] - y.table[k_]) <= 1e-8 + 1e-5 * abs(y.table[k_]) for k_ in y.table)
+                      for i_, x in enumerate(after) for y in after[i_ + 1:])
+        if collide:
+            out.cls("fset_marginalize_members_collide")
+            marg = []
+    if marg:
         out.cls("fset_marginalize")
         r = out.call("fset.marginalize", A.marginalize, list(marg), inplace=False)
         out.evals += 1
